@@ -431,6 +431,33 @@ impl Check for C03Pipeline {
         if o3.res != o1.res || o3.stdout != o1.stdout {
             return CaseResult::Fail(format!("the order of the options changes the result: {:?} vs {:?}", a1, a3));
         }
+        // the same options written as separate words (`--sort-by KEY` for `--sort-by=KEY`) with the
+        // input given as a file after them (one case in four, inputs below 64 KiB)
+        if input.len() % 4 == 1 && input.len() < 65_536 {
+            let mut a4: Vec<String> = Vec::new();
+            for a in &a1 {
+                match a.split_once('=') {
+                    Some((name, value)) if name.starts_with("--") && !value.starts_with('-') && !value.is_empty() => {
+                        a4.push(name.to_string());
+                        a4.push(value.to_string());
+                    }
+                    _ => a4.push(a.clone()),
+                }
+            }
+            let dir = crate::fifo::tmp_dir();
+            let path = dir.join(format!("c03-{:016x}.json", hash_str(&format!("{:?}{}", a1, input.len()))));
+            if std::fs::write(&path, &input).is_ok() {
+                // (a bare --merge takes the next word for its optional key expression: the file
+                // goes in front of it)
+                let at = if a4.last().map(|x| x == "--merge").unwrap_or(false) { a4.len() - 1 } else { a4.len() };
+                a4.insert(at, path.to_str().unwrap().to_string());
+                let o4 = run(&a4, b"");
+                let _ = std::fs::remove_file(&path);
+                if o4.res != o1.res || o4.stdout != o1.stdout {
+                    return CaseResult::Fail(format!("options written as separate words with the input as a file give another result: {:?} gives {} {}; {:?} on stdin gives {} {}", a4, o4.res.short(), esc_trunc(&o4.stdout, 300), a1, o1.res.short(), esc_trunc(&o1.stdout, 300)));
+                }
+            }
+        }
         let got: Vec<RVal> = match split_rows(&o1.stdout, b"\n") {
             Ok(r) => r.into_iter().map(|x| x.0).collect(),
             Err(e) => return CaseResult::Fail(format!("unreadable output: {}", e)),
@@ -612,7 +639,7 @@ impl Check for C03Large {
 }
 
 pub fn run_all(ctx: &mut Ctx) {
-    ctx.rule = "option subsets over --set (variables, macros), --split-by, --filter, 0..3 --select (with /name/ back-references), --unique, 0..3 --sort-by with directions, --skip 0..3, --take absent|0..6, --group-by | --merge, --only-objects-and-arrays, each with a generated expression (type-directed, depth <= 2) x 0..12 inputs built from 1..3 base records (so keys repeat and tie; variants differ in a tag field; some top-level scalars) x three argument orders (relative order of the --select and --sort-by options kept). Oracle: (1) the three argument orders give byte-identical results; (2) the rows equal the reference pipeline (split -> filter -> select -> unique -> sort -> skip/take -> group|merge after only-objects) with expressions evaluated by the reference evaluator; cases whose expressions hit a point the documentation leaves open are judged by (1) only. non-trivial = judged by the model, >= 2 stateful/structural stages and >= 3 inputs. C03.large: the same two oracles on 100..5000 rows (12000 thorough) derived from a seed (1..5 distinct sort keys, rows without the key, optional nested lists for --split-by, repeating rows under --unique), plain field expressions in every stage, limits around 1024 and around the row count; non-trivial additionally needs >= 1000 rows".into();
+    ctx.rule = "option subsets over --set (variables, macros), --split-by, --filter, 0..3 --select (with /name/ back-references), --unique, 0..3 --sort-by with directions, --skip 0..3, --take absent|0..6, --group-by | --merge, --only-objects-and-arrays, each with a generated expression (type-directed, depth <= 2) x 0..12 inputs built from 1..3 base records (so keys repeat and tie; variants differ in a tag field; some top-level scalars) x three argument orders (relative order of the --select and --sort-by options kept). Oracle: (1) the three argument orders give byte-identical results, and so does (one case in four) the spelling with option and value as separate words and the input as a file argument behind them; (2) the rows equal the reference pipeline (split -> filter -> select -> unique -> sort -> skip/take -> group|merge after only-objects) with expressions evaluated by the reference evaluator; cases whose expressions hit a point the documentation leaves open are judged by (1) only. non-trivial = judged by the model, >= 2 stateful/structural stages and >= 3 inputs. C03.large: the same two oracles on 100..5000 rows (12000 thorough) derived from a seed (1..5 distinct sort keys, rows without the key, optional nested lists for --split-by, repeating rows under --unique), plain field expressions in every stage, limits around 1024 and around the row count; non-trivial additionally needs >= 1000 rows".into();
     ctx.assumptions = vec!["reference evaluator as in C04; rows compared as values (number spelling and object member order of synthesised records free)".into()];
     C03Pipeline.run(ctx);
     C03Large.run(ctx);
